@@ -109,7 +109,9 @@ def templates(tier, seed):
             ts.append(Template(f"T4/frame_index/rd={rd}/N={N}", t_index, ("frame_index", N, dict(rd=rd))))
         for iname, sname in (("i", "i"), ("i", "j"), (None, "j"), ("i", None)):
             ts.append(Template(f"T4/frame_index/name={iname}-{sname}/N={N}", t_index, ("frame_index", N, dict(index_name=iname, schema_index_name=sname))))
-        for shape in ("rowwise", "scalar", "element_wise", "two_checks"):
+        for shape in ("rowwise", "scalar", "element_wise", "two_checks", "groupby"):
+            if shape == "groupby" and N < 1:
+                continue
             for lazy in (False, True):
                 ts.append(Template(f"T6/{shape}/lazy={int(lazy)}/N={N}", t_wide, (shape, N, dict(lazy=lazy)), twin="verdict"))
         for kinds in ({"a": "int"}, {"b": "float"}, {"a": "str"}, {"a": "bool"}):
